@@ -387,7 +387,7 @@ impl ShortTermCredentialClient {
 //@end
 //@item stun_agent :: mod st_cred_mech > impl ShortTermCredentialClient > fn prepare_request_or_indication
 //@tags C07 C13
-//@sub "remove_auth_and_integrity_attrs(attributes);" => "st_remove_auth_and_integrity_attrs(attributes);"
+//@subopt "remove_auth_and_integrity_attrs(" => "st_remove_auth_and_integrity_attrs("
 //@spec
     requires old(attributes).wf(),
     ensures final(attributes).wf(), st_prepared(*self, *old(attributes), *final(attributes)),
@@ -739,7 +739,7 @@ impl LongTermCredentialClient {
 //@end
 //@item stun_agent :: mod lt_cred_mech > impl LongTermCredentialClient > fn first_request
 //@tags C08 C13
-//@sub "remove_auth_and_integrity_attrs(attributes);" => "lt_remove_auth_and_integrity_attrs(attributes);"
+//@subopt "remove_auth_and_integrity_attrs(" => "lt_remove_auth_and_integrity_attrs("
 //@spec
     requires old(attributes).wf(),
     ensures final(attributes).wf(), *final(self) == *old(self), r is Ok,
@@ -750,7 +750,7 @@ impl LongTermCredentialClient {
 //@end
 //@item stun_agent :: mod lt_cred_mech > impl LongTermCredentialClient > fn subsequent_request
 //@tags C08 C13
-//@sub "remove_auth_and_integrity_attrs(attributes);" => "lt_remove_auth_and_integrity_attrs(attributes);"
+//@subopt "remove_auth_and_integrity_attrs(" => "lt_remove_auth_and_integrity_attrs("
 //@spec
     requires old(attributes).wf(),
     ensures final(attributes).wf(), *final(self) == *old(self),
@@ -764,7 +764,7 @@ impl LongTermCredentialClient {
 //@end
 //@item stun_agent :: mod lt_cred_mech > impl LongTermCredentialClient > fn retry_from_unauthenticated_error_response
 //@tags C08 C13
-//@sub "remove_auth_and_integrity_attrs(attributes);" => "lt_remove_auth_and_integrity_attrs(attributes);"
+//@subopt "remove_auth_and_integrity_attrs(" => "lt_remove_auth_and_integrity_attrs("
 //@tail
     proof {
         assert(attributes.attributes@ =~= lt_cleared(old(attributes).attributes@) + lt_cred_seq(*self, true));
@@ -781,7 +781,7 @@ impl LongTermCredentialClient {
 //@end
 //@item stun_agent :: mod lt_cred_mech > impl LongTermCredentialClient > fn retry_from_stale_nonce_error_response
 //@tags C08 C13
-//@sub "remove_auth_and_integrity_attrs(attributes);" => "lt_remove_auth_and_integrity_attrs(attributes);"
+//@subopt "remove_auth_and_integrity_attrs(" => "lt_remove_auth_and_integrity_attrs("
 //@tail
     proof {
         assert(attributes.attributes@ =~= lt_cleared(old(attributes).attributes@) + lt_cred_seq(*self, false));
